@@ -114,15 +114,20 @@ Definition producing (rows : list srow) : list prow := with_percent (filter is_p
 Definition consuming (rows : list srow) : list prow := with_percent (filter is_consumed rows).
 
 (* ---------------------------------------------------------------- ReactionSummary._generate *)
-Definition reaction_row (s : solution) (fva : option fva_frame) (rid : Z) : Q * option (Q * Q) :=
-  (getq rid s, row_range fva rid).
+(* flux joined (left join) with the fva frame and NOT passed through `where`: a reaction without a
+   row in the frame keeps NaN minimum / maximum (inner None); no fva = no range columns (outer None).
+   In the model / metabolite summaries the same missing row becomes the range (0, 0), because
+   `view.where(view.abs() >= tol, 0)` replaces NaN by 0: that is `get_range`'s default above.   *)
+Definition reaction_row (s : solution) (fva : option fva_frame) (rid : Z) : Q * option (option (Q * Q)) :=
+  (getq rid s, match fva with None => None | Some f => Some (lookup rid f) end).
 
-(* _string_flux after fixes/reaction-summary-threshold.patch: the row is displayed unchanged when
-   |flux| (or, with fva, |minimum| or |maximum|) reaches the threshold; otherwise zeros are
-   displayed (the unpatched code dropped the row and frame.at[...] raised KeyError).        *)
-Definition reaction_display (threshold : Q) (row : Q * option (Q * Q)) : Q * option (Q * Q) :=
+(* _string_flux after the repair of the KeyError (commit "ReactionSummary renders a flux below the
+   threshold as zero"): the row is displayed unchanged when |flux| (or, with fva, |minimum| or
+   |maximum|) reaches the threshold; otherwise zeros are displayed.  NaN never reaches a threshold. *)
+Definition reaction_display (threshold : Q) (row : Q * option (option (Q * Q))) : Q * option (option (Q * Q)) :=
   let shown x := Qle_bool threshold (Qabs x) in
   match snd row with
   | None => if shown (fst row) then row else (0, None)
-  | Some (a, b) => if shown (fst row) || shown a || shown b then row else (0, Some (0, 0))
+  | Some None => if shown (fst row) then row else (0, Some (Some (0, 0)))
+  | Some (Some (a, b)) => if shown (fst row) || shown a || shown b then row else (0, Some (Some (0, 0)))
   end.
